@@ -90,11 +90,15 @@ impl DerefMut for Instance {
 
 impl AllocateObj<Instance> for ObjRef<Class> {
   fn alloc(self) -> AllocObjResult<Instance> {
-    if self.fields() > 256 {
-      panic!("Cannot allocate class with more than 256 fields")
-    }
-
-    let slice = &NIL_ARRAY[..self.fields()];
+    // the shared block of nils covers the usual case, a class (or a module with that many
+    // exports) may well have more fields than it holds
+    let nils;
+    let slice = if self.fields() <= MAX_FIELD_COUNT {
+      &NIL_ARRAY[..self.fields()]
+    } else {
+      nils = vec![VALUE_NIL; self.fields()];
+      &nils[..]
+    };
     let handle = ArrayHandle::from_slice(slice, Header::new(self));
 
     let size = handle.size();
